@@ -16,6 +16,10 @@ import os as _os
 for _n in ("nope", "x", "zd", "Zd", "ZD", "zD", "da", "Db", "dc", "DA", "DB", "DC", "Da", "db", "Dc",
            "a", "A", "b", "B", "c", "C", "d", "other"):
     _os.environ[_n] = "FROM-ENVIRONMENT-" + _n
+# a variable that is set and empty, and one that is set to blanks: both have a value
+_os.environ["ZCV_EMPTY"] = ""
+_os.environ["ZCV_BLANK"] = "  "
+_os.environ["Zcv_Mixed"] = "mixed"
 
 
 def zc():
